@@ -11,7 +11,10 @@
 // payload alphabet by Unicode general category and plane) there is the family
 // "messages travel through a bounded queue" (bounded_test.go): every operation
 // sequence up to a length bound on queues with queue_limits, where enqueues are
-// refused after the store started to evict.
+// refused after the store started to evict, and the sweep "what the route's
+// admission / authentication layers are configured to do with the request"
+// (layers_test.go): route configuration x header set x framing x body sizes
+// around every configured limit, with a recording in-memory auth service.
 //
 // The enumeration is split over shard processes (runner.RunShards): the SQLite
 // driver does not scale over goroutines of one process.
@@ -230,7 +233,7 @@ func TestCheck(t *testing.T) {
 			n = len(f.Job.Hist.Ops)*100000 + f.Job.Hist.Conf.Depth*1000
 		}
 		for _, c := range f.Job.Cases {
-			n += 100000 + len(c.Hdrs)*1000 + len(c.BodyHex)/2 + c.N*2000
+			n += 100000 + len(c.Hdrs)*1000 + c.bodyLen()*8 + len(c.Frame)
 		}
 		return n
 	}
@@ -280,12 +283,17 @@ func TestCheck(t *testing.T) {
 	r.Set("bounded_queue_bounds", runner.Pick(r,
 		"max_depth {1,2} x drop_policy {drop_oldest,reject} x delivered_retention {off,on} (+ memory retained-items pressure limit 1, max_depth {1,2}, there also every one-step continuation of I I D A and I D I A); every operation sequence of length <= 4 (memory) / <= 3 (sqlite) over {I,P1,P2,P3,Pex,Bdup,SdupO,SdupN,D,A,N} (push: enqueue operations only)",
 		"max_depth {1,2,3} x drop_policy {drop_oldest,reject} x delivered_retention {off,on} (+ memory retained-items pressure limit 1, max_depth {1,2}); every operation sequence of length <= 5 (memory) / <= 4 (sqlite) over {I,P1,P2,P3,Pex,Bdup,SdupO,SdupN,D,A,N} (push: enqueue operations only, length <= 4)"))
-	r.Set("rule", "nested loops: sweep{body,header,unicode,publish-header,boundary} x case x way-in{ingress raw HTTP/1.1, admin publish payload_b64, Store.Enqueue (unicode sweep)} x flow{pull http>grpc, pull grpc>http, push} x backend{memory,sqlite}; "+
+	r.Set("layer_routes", layerSummary())
+	r.Set("layer_header_sets", len(layerHeaderSets(r.Thorough())))
+	r.Set("rule", "nested loops: sweep{body,header,layers,unicode,publish-header,boundary} x case x way-in{ingress raw HTTP/1.1, admin publish payload_b64, Store.Enqueue (unicode sweep)} x flow{pull http>grpc, pull grpc>http, push} x backend{memory,sqlite}; "+
 		"unicode sweep: first and last code point of every Unicode general category in the BMP and above U+FFFF plus the JSON/Go escaping boundary code points, as header value (embedded and alone) and as payload; "+
+		"layers sweep: route configuration (layer_routes: auth forward in every option combination and answer class, auth basic, auth hmac, rate_limit, max_body, max_headers, stacks) x header set (every line atom alone, entity headers Content-Type / Content-Encoding / Expect / comma value alone and combined) x framing {Content-Length, chunked, chunked+declared trailer} x body sizes {0,1,5, limit-1, limit, limit+1, 4*limit+1 for every configured body_limit / max_body, a gzip stream} x credentials {valid, wrong, none}; the auth service is an in-memory RoundTripper that records the sub-request; "+
 		"bounded-queue family: every operation sequence within bounded_queue_bounds on a queue with queue_limits, every message visible after every operation and in the delivery flow afterwards is compared (which messages survive is not judged); "+
 		"every accepted message is observed at admin list, first delivery, nack+redelivery, (sqlite) close+reopen then two more deliveries; one evaluation = one observation or one accept/reject decision compared with the reference; "+
 		"distinct = (way in, route, framing, path out, phase, backend, body class, header atom set, verdict); non-trivial = the case went through a real enqueue and a real delivery or a real rejection")
-	r.Assume("Host, Content-Length and Transfer-Encoding are message framing, not part of the 'received headers' compared (they may or may not be stored)")
+	r.Assume("Host, Content-Length, Transfer-Encoding and Trailer are message framing: they need not be stored, but a stored one must have been received and carry the received value (framing-value / framing-extra); a declared trailer field is treated the same way")
+	r.Assume("layers sweep: whether a route's rate limiter, header budget (max_headers within reach of the header set), auth service answer other than 2xx, or wrong/missing credentials refuse a request is the contract of that layer (C08/C12) and only counted (layer_refusals_not_judged, layer_responses_<status>); judged are: valid credentials + body within max_body on a route whose limiter/header budget is out of reach => accepted, body over max_body => refused, refused => never visible, accepted => byte-identical payload and reference headers")
+	r.Assume("auth hmac routes verify against the wall clock: the request is signed with the current second when it is sent (an input, never an oracle); of the forward-auth sub-request only 'body not longer than body_limit' is required, what else it carries is counted (layer_fwd_subrequest_*)")
 	r.Assume("push: the request seen by the target must carry every stored header of the message with the reference value, no sensitive header with a received value, and otherwise only framing (Host, Content-Length, Transfer-Encoding) or the deliverer's/transport's own headers: User-Agent, Accept-Encoding, Content-Type, X-Hookaido-Signature, X-Hookaido-Timestamp (sign hmac defaults; signing is not configured here), Traceparent, Tracestate, Baggage; any other header is a violation (header-foreign)")
 	r.Assume("publish: header names are compared after canonicalisation (the property defines canonicalisation for ingress; publish stores the caller's JSON map), Authorization/Cookie are not sent through publish (the strip rule is stated for ingress)")
 	r.Assume("header values are valid UTF-8 without leading/trailing whitespace; forward-auth copy_headers carry one value each and do not collide with a client header")
